@@ -1,4 +1,5 @@
 import PacketVerif.Model.Parse
+import PacketVerif.Spec.Decode
 namespace PV.Lemmas
 open PV PV.Model
 
@@ -77,4 +78,686 @@ def tablesOk : Bool :=
 
 theorem tablesOk_true : tablesOk = true := by decide
 
+
+/-! ### bridge to total readers -/
+theorem at_eq (p : Bytes) (k : Nat) (h : k < p.length) : Spec.at_ p k = (p[k]'h).toNat := by
+  unfold Spec.at_; rw [List.getElem?_eq_getElem h]; rfl
+
+theorem at_lt (p : Bytes) (k : Nat) : Spec.at_ p k < 256 := by
+  unfold Spec.at_; exact UInt8.toNat_lt _
+
+theorem u16_lt (p : Bytes) (k : Nat) : Spec.u16 p k < 65536 := by
+  unfold Spec.u16; have := at_lt p k; have := at_lt p (k+1); omega
+
+theorem idx_at (p : Bytes) (k : Nat) (h : k < p.length) : ∃ v, idx p k = .ok v ∧ v.toNat = Spec.at_ p k :=
+  ⟨_, idx_ok' p k h, (at_eq p k h).symm⟩
+
+theorem byteN_at (p : Bytes) (k : Nat) (h : k < p.length) : byteN p k = .ok (Spec.at_ p k) := by
+  rw [byteN_ok p k h, at_eq p k h]
+
+theorem be16At_u16 (p : Bytes) (k : Nat) (h : k + 1 < p.length) : be16At p k = .ok (Spec.u16 p k) := by
+  rw [be16At_ok p k h]; unfold Spec.u16 be16; rw [at_eq p k (by omega), at_eq p (k+1) h]
+
+theorem slice_field (p : Bytes) (lo hi : Nat) (h1 : lo ≤ hi) (h2 : hi ≤ p.length) :
+    slice p lo hi = .ok (Spec.field p lo (hi - lo)) := by
+  rw [slice_ok p lo hi h1 h2, List.drop_take]; rfl
+
+theorem field_length (p : Bytes) (k n : Nat) (h : k + n ≤ p.length) : (Spec.field p k n).length = n := by
+  unfold Spec.field; rw [List.length_take, List.length_drop]; omega
+
+theorem at_drop (p : Bytes) (o k : Nat) : Spec.at_ (p.drop o) k = Spec.at_ p (o + k) := by
+  unfold Spec.at_; rw [List.getElem?_drop]
+
+theorem u16_drop (p : Bytes) (o k : Nat) : Spec.u16 (p.drop o) k = Spec.u16 p (o + k) := by
+  unfold Spec.u16; rw [at_drop, at_drop]; rfl
+
+theorem field_drop (p : Bytes) (o k n : Nat) : Spec.field (p.drop o) k n = Spec.field p (o + k) n := by
+  unfold Spec.field; rw [List.drop_drop]
+
+theorem and15 (n : Nat) : n &&& 15 = n % 16 := Nat.and_two_pow_sub_one_eq_mod n 4
+theorem shl2 (n : Nat) : n <<< 2 = n * 4 := Nat.shiftLeft_eq n 2
+theorem shr4 (n : Nat) : n >>> 4 = n / 16 := Nat.shiftRight_eq_div_pow n 4
+
+
+/-! ### validators: closed forms -/
+theorem lenAtLeast_eq (p : Bytes) (n : Nat) (e : Err) :
+    lenAtLeast p n e = if n ≤ p.length then .ok () else .err e := rfl
+
+theorem etherHeaderLen_eq (p : Bytes) (h : 14 ≤ p.length) :
+    etherHeaderLen p = .ok (etherHeaderLenOf (Spec.u16 p 12)) := by
+  unfold etherHeaderLen; rw [be16At_u16 p 12 (by omega)]; rfl
+
+theorem etherHeaderLenOf_cases (et : Nat) :
+    etherHeaderLenOf et = 14 ∨ etherHeaderLenOf et = 18 ∨ etherHeaderLenOf et = 22 := by
+  unfold etherHeaderLenOf; split
+  · exact .inr (.inl rfl)
+  · split
+    · exact .inr (.inr rfl)
+    · exact .inl rfl
+
+theorem etherValid_eq (p : Bytes) :
+    etherValid p = if 14 ≤ p.length ∧ etherHeaderLenOf (Spec.u16 p 12) ≤ p.length then .ok () else .err .frameLen := by
+  unfold etherValid
+  by_cases h : 14 ≤ p.length
+  · rw [if_pos h, etherHeaderLen_eq p h]
+    simp only [Outcome.bind_ok, h, true_and, ge_iff_le]
+  · rw [if_neg h, if_neg (fun hh => h hh.1)]
+
+theorem ip4IHL_eq (p : Bytes) (h : 0 < p.length) : ip4IHL p = .ok (Spec.at_ p 0 % 16 * 4) := by
+  unfold ip4IHL; rw [byteN_at p 0 h]
+  simp only [Outcome.bind_ok, Outcome.pure_eq, and15, shl2]
+
+theorem ip4TotalLen_eq (p : Bytes) (h : 4 ≤ p.length) : ip4TotalLen p = .ok (Spec.u16 p 2) :=
+  be16At_u16 p 2 (by omega)
+
+theorem ip4Valid_eq (p : Bytes) :
+    ip4Valid p = if 20 ≤ p.length ∧ 20 ≤ Spec.at_ p 0 % 16 * 4 ∧ Spec.at_ p 0 % 16 * 4 ≤ p.length ∧
+        Spec.u16 p 2 ≤ p.length ∧ Spec.at_ p 0 % 16 * 4 ≤ Spec.u16 p 2 then .ok () else .err .frameLen := by
+  unfold ip4Valid
+  by_cases h : 20 ≤ p.length
+  · rw [if_pos h, ip4IHL_eq p (by omega), ip4TotalLen_eq p (by omega)]
+    simp only [Outcome.bind_ok, h, true_and, ge_iff_le]
+  · rw [if_neg h, if_neg (fun hh => h hh.1)]
+
+theorem tcpHeaderLen_eq (p : Bytes) (h : 13 ≤ p.length) : tcpHeaderLen p = .ok (Spec.at_ p 12 / 16 * 4) := by
+  unfold tcpHeaderLen; rw [byteN_at p 12 (by omega)]
+  simp only [Outcome.bind_ok, Outcome.pure_eq, shr4]
+
+theorem tcpValid_eq (p : Bytes) :
+    tcpValid p = if 20 ≤ p.length ∧ 20 ≤ Spec.at_ p 12 / 16 * 4 ∧ Spec.at_ p 12 / 16 * 4 ≤ p.length
+      then .ok () else .err .frameLen := by
+  unfold tcpValid
+  by_cases h : 20 ≤ p.length
+  · rw [if_pos h, tcpHeaderLen_eq p (by omega)]
+    simp only [Outcome.bind_ok, h, true_and, ge_iff_le]
+  · rw [if_neg h, if_neg (fun hh => h hh.1)]
+
+theorem ip6Valid_eq (p : Bytes) :
+    ip6Valid p = if 40 ≤ p.length ∧ Spec.u16 p 4 + 40 = p.length then .ok () else .err .frameLen := by
+  unfold ip6Valid
+  by_cases h : 40 ≤ p.length
+  · rw [if_pos h, be16At_u16 p 4 (by omega)]
+    simp only [Outcome.bind_ok, h, true_and, beq_iff_eq]
+  · rw [if_neg h, if_neg (fun hh => h hh.1)]
+
+
+theorem arpValid_safe (p : Bytes) : (arpValid p).safe = true := by
+  unfold arpValid
+  by_cases h : p.length < 28
+  · rw [if_pos h]; rfl
+  · rw [if_neg h, be16At_u16 p 0 (by omega), be16At_u16 p 2 (by omega), byteN_at p 4 (by omega), byteN_at p 5 (by omega)]
+    simp only [Outcome.bind_ok]
+    repeat (first | rfl | split)
+
+theorem arpValid_len (p : Bytes) (h : arpValid p = .ok ()) : 28 ≤ p.length := by
+  unfold arpValid at h
+  by_cases h' : p.length < 28
+  · rw [if_pos h'] at h; cases h
+  · omega
+
+theorem rsValid_safe (p : Bytes) : (rsValid p).safe = true := by
+  unfold rsValid
+  by_cases h : p.length < 8
+  · rw [if_pos h]; rfl
+  · rw [if_neg h, byteN_at p 0 (by omega)]
+    simp only [Outcome.bind_ok]
+    repeat (first | rfl | split)
+
+theorem rsValid_len (p : Bytes) (h : rsValid p = .ok ()) : 8 ≤ p.length := by
+  unfold rsValid at h
+  by_cases h' : p.length < 8
+  · rw [if_pos h'] at h; cases h
+  · omega
+
+theorem pauseValid_safe (p : Bytes) : (pauseValid p).safe = true := by
+  unfold pauseValid
+  by_cases h : p.length < 46
+  · rw [if_pos h]; rfl
+  · rw [if_neg h, be16At_u16 p 0 (by omega)]
+    simp only [Outcome.bind_ok]
+    repeat (first | rfl | split)
+
+theorem pauseValid_len (p : Bytes) (h : pauseValid p = .ok ()) : 46 ≤ p.length := by
+  unfold pauseValid at h
+  by_cases h' : p.length < 46
+  · rw [if_pos h'] at h; cases h
+  · omega
+
+theorem redirValid_safe (p : Bytes) : (redirValid p).safe = true := by
+  unfold redirValid
+  by_cases h : p.length < 8
+  · rw [if_pos h]; rfl
+  · rw [if_neg h, byteN_at p 4 (by omega), byteN_at p 5 (by omega), byteN_at p 0 (by omega)]
+    simp only [Outcome.bind_ok]
+    repeat (first | rfl | split)
+
+theorem redirValid_ok (p : Bytes) (h : redirValid p = .ok ()) :
+    8 ≤ p.length ∧ 8 + Spec.at_ p 4 * Spec.at_ p 5 * 4 ≤ p.length ∧ (Spec.at_ p 5 = 4 ∨ Spec.at_ p 5 = 10) := by
+  unfold redirValid at h
+  by_cases h' : p.length < 8
+  · rw [if_pos h'] at h; cases h
+  · rw [if_neg h', byteN_at p 4 (by omega), byteN_at p 5 (by omega), byteN_at p 0 (by omega)] at h
+    simp only [Outcome.bind_ok] at h
+    split at h
+    · cases h
+    · split at h
+      · cases h
+      · split at h
+        · cases h
+        · rename_i h1 _ h3
+          simp only [bne_iff_ne, ne_eq] at h3
+          exact ⟨by omega, by omega, by omega⟩
+
+theorem hbhLen_eq (p : Bytes) (h : 2 ≤ p.length) : hbhLen p = .ok (Spec.at_ p 1 * 8 + 8) := by
+  unfold hbhLen; rw [byteN_at p 1 (by omega)]; rfl
+
+theorem hbhValid_safe (p : Bytes) : (hbhValid p).safe = true := by
+  unfold hbhValid
+  by_cases h : p.length < 2
+  · rw [if_pos h]; rfl
+  · rw [if_neg h, hbhLen_eq p (by omega)]
+    simp only [Outcome.bind_ok]
+    repeat (first | rfl | split)
+
+theorem hbhValid_ok (p : Bytes) (h : hbhValid p = .ok ()) :
+    2 ≤ p.length ∧ Spec.at_ p 1 * 8 + 8 + 2 ≤ p.length := by
+  unfold hbhValid at h
+  by_cases h' : p.length < 2
+  · rw [if_pos h'] at h; cases h
+  · rw [if_neg h', hbhLen_eq p (by omega)] at h
+    simp only [Outcome.bind_ok] at h
+    split at h
+    · cases h
+    · omega
+
+
+theorem dhcpValidateOpts_safe (fuel : Nat) (opts : Bytes) : (dhcpValidateOpts fuel opts).safe = true := by
+  induction fuel generalizing opts with
+  | zero => rfl
+  | succ n ih =>
+    unfold dhcpValidateOpts
+    split
+    · repeat (first | rfl | apply ih | split)
+    · rfl
+
+theorem dhcpValid_safe (p : Bytes) : (dhcpValid p).safe = true := by
+  unfold dhcpValid
+  by_cases h : p.length < 240
+  · rw [if_pos h]; rfl
+  · rw [if_neg h, byteN_at p 0 (by omega), byteN_at p 2 (by omega)]
+    simp only [Outcome.bind_ok]
+    repeat (first | rfl | apply dhcpValidateOpts_safe | split)
+
+theorem dhcpValid_len (p : Bytes) (h : dhcpValid p = .ok ()) : 240 ≤ p.length := by
+  unfold dhcpValid at h
+  by_cases h' : p.length < 240
+  · rw [if_pos h'] at h; cases h
+  · omega
+
+/-- pure form of `LLC.Type()` -/
+def llcTypeOf (d s c : Nat) : String :=
+  if c == 0x03 ∧ d == 0xaa ∧ s == 0xaa then "snap"
+  else if c &&& 0x3 == 0x03 then "u"
+  else if c &&& 0x01 == 0x01 then "s"
+  else "i"
+
+theorem llcType_eq (p : Bytes) (h : 3 ≤ p.length) :
+    llcType p = .ok (llcTypeOf (Spec.at_ p 0) (Spec.at_ p 1) (Spec.at_ p 2)) := by
+  unfold llcType
+  rw [byteN_at p 0 (by omega), byteN_at p 1 (by omega), byteN_at p 2 (by omega)]
+  simp only [Outcome.bind_ok, llcTypeOf, Outcome.pure_eq]
+  repeat (first | rfl | split)
+
+theorem llcValid_eq (p : Bytes) :
+    llcValid p = if 3 ≤ p.length ∧ ¬ (llcTypeOf (Spec.at_ p 0) (Spec.at_ p 1) (Spec.at_ p 2) ≠ "u" ∧ p.length < 4)
+      then .ok () else .err .frameLen := by
+  unfold llcValid
+  by_cases h : p.length < 3
+  · rw [if_pos h, if_neg (by omega)]
+  · rw [if_neg h, llcType_eq p (by omega)]
+    simp only [Outcome.bind_ok, bne_iff_ne, ne_eq]
+    have h3 : 3 ≤ p.length := by omega
+    simp only [h3, true_and]
+    split <;> rfl
+
+
+/-- a getter call returned a value whose slices lie inside the view -/
+def GOk (p : Bytes) (o : Outcome Val) : Prop := ∃ v, o = .ok v ∧ v.inside p.length
+
+theorem etherValid_ok (p : Bytes) (h : etherValid p = .ok ()) :
+    14 ≤ p.length ∧ etherHeaderLenOf (Spec.u16 p 12) ≤ p.length := by
+  rw [etherValid_eq] at h
+  split at h
+  · assumption
+  · cases h
+
+theorem etherHeaderLen_getter (p : Bytes) (hv : etherValid p = .ok ()) :
+    GOk p (do let n ← etherHeaderLen p; pure (.n n)) := by
+  rw [etherHeaderLen_eq p (etherValid_ok p hv).1]
+  exact ⟨_, rfl, trivial⟩
+
+theorem etherPayload_getter (p : Bytes) (hv : etherValid p = .ok ()) : GOk p (etherPayload p) := by
+  obtain ⟨h1, h2⟩ := etherValid_ok p hv
+  unfold etherPayload
+  rw [etherHeaderLen_eq p h1]
+  simp only [Outcome.bind_ok, Outcome.pure_eq]
+  split
+  · exact ⟨_, rfl, by simp only [Val.inside]; omega⟩
+  · split
+    · exact ⟨_, rfl, by simp only [Val.inside]; omega⟩
+    · exact ⟨_, rfl, trivial⟩
+
+theorem etherIP_getter (o4 o6 : Nat) (h4 : o4 ≤ 16) (h6 : o6 ≤ 24) (p : Bytes) (hv : etherValid p = .ok ()) :
+    GOk p (etherIP o4 o6 p) := by
+  obtain ⟨h1, _⟩ := etherValid_ok p hv
+  unfold etherIP
+  rw [be16At_u16 p 12 (by omega)]
+  simp only [Outcome.bind_ok, Outcome.pure_eq]
+  split
+  · split
+    · rw [slice_field p _ _ (by omega) (by omega)]; exact ⟨_, rfl, trivial⟩
+    · exact ⟨_, rfl, trivial⟩
+  · split
+    · split
+      · rw [slice_field p _ _ (by omega) (by omega)]; exact ⟨_, rfl, trivial⟩
+      · exact ⟨_, rfl, trivial⟩
+    · exact ⟨_, rfl, trivial⟩
+
+theorem ip4Valid_ok (p : Bytes) (h : ip4Valid p = .ok ()) :
+    20 ≤ p.length ∧ 20 ≤ Spec.at_ p 0 % 16 * 4 ∧ Spec.at_ p 0 % 16 * 4 ≤ p.length ∧
+        Spec.u16 p 2 ≤ p.length ∧ Spec.at_ p 0 % 16 * 4 ≤ Spec.u16 p 2 := by
+  rw [ip4Valid_eq] at h
+  split at h
+  · assumption
+  · cases h
+
+theorem ip4Payload_eq (p : Bytes) (h : ip4Valid p = .ok ()) :
+    ip4Payload p = .ok (.span (Spec.at_ p 0 % 16 * 4) (Spec.u16 p 2 - Spec.at_ p 0 % 16 * 4)) := by
+  obtain ⟨h1, h2, h3, h4, h5⟩ := ip4Valid_ok p h
+  unfold ip4Payload
+  rw [ip4IHL_eq p (by omega), ip4TotalLen_eq p (by omega)]
+  simp only [Outcome.bind_ok, Outcome.pure_eq]
+  rw [if_pos ⟨h5, h4⟩]
+
+theorem ip4Payload_getter (p : Bytes) (hv : ip4Valid p = .ok ()) : GOk p (ip4Payload p) := by
+  obtain ⟨h1, h2, h3, h4, h5⟩ := ip4Valid_ok p hv
+  rw [ip4Payload_eq p hv]
+  exact ⟨_, rfl, by simp only [Val.inside]; omega⟩
+
+theorem tcpValid_ok (p : Bytes) (h : tcpValid p = .ok ()) :
+    20 ≤ p.length ∧ 20 ≤ Spec.at_ p 12 / 16 * 4 ∧ Spec.at_ p 12 / 16 * 4 ≤ p.length := by
+  rw [tcpValid_eq] at h
+  split at h
+  · assumption
+  · cases h
+
+theorem tcpPayload_eq (p : Bytes) (h : tcpValid p = .ok ()) :
+    tcpPayload p = .ok (.span (Spec.at_ p 12 / 16 * 4) (p.length - Spec.at_ p 12 / 16 * 4)) := by
+  obtain ⟨h1, h2, h3⟩ := tcpValid_ok p h
+  unfold tcpPayload
+  rw [tcpHeaderLen_eq p (by omega)]
+  simp only [Outcome.bind_ok, Outcome.pure_eq]
+  rw [if_pos h3]
+
+theorem tcpPayload_getter (p : Bytes) (hv : tcpValid p = .ok ()) : GOk p (tcpPayload p) := by
+  obtain ⟨h1, h2, h3⟩ := tcpValid_ok p hv
+  rw [tcpPayload_eq p hv]
+  exact ⟨_, rfl, by simp only [Val.inside]; omega⟩
+
+theorem icmpPayload_getter (p : Bytes) : GOk p (icmpPayload p) := by
+  unfold icmpPayload
+  split
+  · exact ⟨_, rfl, by simp only [Val.inside]; omega⟩
+  · exact ⟨_, rfl, trivial⟩
+
+theorem echoData_getter (p : Bytes) : GOk p (echoData p) := by
+  unfold echoData
+  split
+  · exact ⟨_, rfl, by simp only [Val.inside]; omega⟩
+  · exact ⟨_, rfl, trivial⟩
+
+theorem redirGo_ok (p : Bytes) (sz n : Nat) (hsz : sz = 4 ∨ sz = 10) (hlen : 8 + n * sz * 4 ≤ p.length)
+    (fuel i : Nat) (acc : List (Nat × Nat)) (hi : i + fuel ≤ n) (hacc : ∀ e ∈ acc, e.1 + e.2 ≤ p.length) :
+    ∃ l, redirAddrs.go p sz i fuel acc = .ok l ∧ ∀ e ∈ l, e.1 + e.2 ≤ p.length := by
+  induction fuel generalizing i acc with
+  | zero =>
+    refine ⟨acc.reverse, rfl, ?_⟩
+    intro e he; exact hacc e (List.mem_reverse.mp he)
+  | succ f ih =>
+    unfold redirAddrs.go
+    have hb : i * sz * 4 + (if (sz == 4) = true then 4 else 16) ≤ p.length := by
+      rcases hsz with rfl | rfl
+      · simp only [beq_self_eq_true, if_true]; omega
+      · have : ((10 : Nat) == 4) = false := by decide
+        simp only [this, Bool.false_eq_true, if_false]; omega
+    simp only [hb, if_true]
+    apply ih
+    · omega
+    · intro e he
+      rcases List.mem_cons.mp he with rfl | he
+      · exact hb
+      · exact hacc e he
+
+theorem redirAddrs_getter (p : Bytes) (hv : redirValid p = .ok ()) : GOk p (redirAddrs p) := by
+  obtain ⟨h1, h2, h3⟩ := redirValid_ok p hv
+  unfold redirAddrs
+  rw [byteN_at p 4 (by omega), byteN_at p 5 (by omega)]
+  simp only [Outcome.bind_ok]
+  obtain ⟨l, hl, hin⟩ := redirGo_ok p _ _ h3 h2 (Spec.at_ p 4) 0 [] (by omega) (by intro e he; cases he)
+  rw [hl]
+  exact ⟨_, rfl, hin⟩
+
+theorem optLLA_getter (minLen tOff t l lo hi : Nat) (h1 : tOff + 2 ≤ minLen) (h2 : lo ≤ hi) (h3 : hi ≤ minLen)
+    (p : Bytes) : GOk p (optLLA minLen tOff t l lo hi p) := by
+  unfold optLLA
+  split
+  · rw [byteN_at p tOff (by omega), byteN_at p (tOff + 1) (by omega)]
+    simp only [Outcome.bind_ok, Outcome.pure_eq]
+    split
+    · rw [slice_field p lo hi h2 (by omega)]
+      exact ⟨_, rfl, by simp only [Val.inside]; omega⟩
+    · exact ⟨_, rfl, trivial⟩
+  · exact ⟨_, rfl, trivial⟩
+
+
+theorem length_takeWhile_le {α} (f : α → Bool) (l : List α) : (l.takeWhile f).length ≤ l.length := by
+  induction l with
+  | nil => exact Nat.le_refl _
+  | cons a t ih =>
+    rw [List.takeWhile_cons]
+    split
+    · simp only [List.length_cons]; omega
+    · simp only [List.length_nil, List.length_cons]; omega
+
+theorem trimNullSpan_getter (lo hi : Nat) (h1 : lo ≤ hi) (p : Bytes) (h2 : hi ≤ p.length) :
+    GOk p (trimNullSpan lo hi p) := by
+  unfold trimNullSpan
+  rw [slice_field p lo hi h1 h2]
+  refine ⟨_, rfl, ?_⟩
+  have := length_takeWhile_le (fun x : UInt8 => x != 0) (Spec.field p lo (hi - lo))
+  rw [field_length p lo (hi - lo) (by omega)] at this
+  simp only [Val.inside]; omega
+
+theorem dhcpOptions_getter (p : Bytes) : GOk p (dhcpOptions p) := by
+  unfold dhcpOptions
+  split
+  · exact ⟨_, rfl, by simp only [Val.inside]; omega⟩
+  · exact ⟨_, rfl, trivial⟩
+
+theorem llcValid_ok (p : Bytes) (h : llcValid p = .ok ()) :
+    3 ≤ p.length ∧ ¬ (llcTypeOf (Spec.at_ p 0) (Spec.at_ p 1) (Spec.at_ p 2) ≠ "u" ∧ p.length < 4) := by
+  rw [llcValid_eq] at h
+  split at h
+  · assumption
+  · cases h
+
+theorem llcType_getter (p : Bytes) (hv : llcValid p = .ok ()) :
+    GOk p (do let t ← llcType p; pure (.s t)) := by
+  rw [llcType_eq p (llcValid_ok p hv).1]
+  exact ⟨_, rfl, trivial⟩
+
+theorem llcPayload_getter (p : Bytes) (hv : llcValid p = .ok ()) : GOk p (llcPayload p) := by
+  obtain ⟨h1, h2⟩ := llcValid_ok p hv
+  unfold llcPayload
+  rw [llcType_eq p h1]
+  simp only [Outcome.bind_ok, Outcome.pure_eq, beq_iff_eq]
+  split
+  · exact ⟨_, rfl, by simp only [Val.inside]; omega⟩
+  · rename_i hne
+    have h4 : 4 ≤ p.length := by
+      apply Decidable.byContradiction; intro hc; exact h2 ⟨hne, by omega⟩
+    rw [if_pos h4]; exact ⟨_, rfl, by simp only [Val.inside]; omega⟩
+
+theorem lldpGetTLV_cases (p : Bytes) (n : Nat) :
+    (∃ e, lldpGetTLV p n = .err e) ∨ (∃ t l v, lldpGetTLV p n = .ok (t, l, v) ∧ v.inside p.length) := by
+  unfold lldpGetTLV
+  by_cases h : p.length ≤ n + 2
+  · rw [if_pos h]; exact .inl ⟨_, rfl⟩
+  · rw [if_neg h, byteN_at p n (by omega), byteN_at p (n + 1) (by omega)]
+    simp only [Outcome.bind_ok, Outcome.pure_eq]
+    split
+    · exact .inr ⟨_, _, _, rfl, trivial⟩
+    · split
+      · rename_i hl
+        rw [if_pos (by omega)]
+        exact .inr ⟨_, _, _, rfl, by simp only [Val.inside]; omega⟩
+      · exact .inl ⟨_, rfl⟩
+
+theorem lldpValue_getter (p : Bytes) (n : Nat) : GOk p (lldpValue p n) := by
+  unfold lldpValue
+  rcases lldpGetTLV_cases p n with ⟨e, he⟩ | ⟨t, l, v, hv, hin⟩
+  · rw [he]; exact ⟨_, rfl, trivial⟩
+  · rw [hv]; exact ⟨_, rfl, hin⟩
+
+theorem lldpPortID_getter (p : Bytes) : GOk p (lldpPortID p) := by
+  unfold lldpPortID
+  obtain ⟨v, hv, _⟩ := lldpValue_getter p 0
+  rw [hv]
+  exact lldpValue_getter p _
+
+theorem hbhData_getter (p : Bytes) (hv : hbhValid p = .ok ()) : GOk p (hbhData p) := by
+  obtain ⟨h1, h2⟩ := hbhValid_ok p hv
+  unfold hbhData
+  rw [hbhLen_eq p h1]
+  simp only [Outcome.bind_ok, Outcome.pure_eq]
+  rw [if_pos ⟨by omega, by omega⟩]
+  exact ⟨_, rfl, by simp only [Val.inside]; omega⟩
+
+
+theorem lenAtLeast_safe (p : Bytes) (n : Nat) (e : Err) : (lenAtLeast p n e).safe = true := by
+  rw [lenAtLeast_eq]; split <;> rfl
+
+theorem lenAtLeast_len (p : Bytes) (n : Nat) (e : Err) (h : lenAtLeast p n e = .ok ()) : n ≤ p.length := by
+  rw [lenAtLeast_eq] at h
+  split at h
+  · assumption
+  · cases h
+
+theorem etherValid_safe (p : Bytes) : (etherValid p).safe = true := by rw [etherValid_eq]; split <;> rfl
+theorem ip4Valid_safe (p : Bytes) : (ip4Valid p).safe = true := by rw [ip4Valid_eq]; split <;> rfl
+theorem tcpValid_safe (p : Bytes) : (tcpValid p).safe = true := by rw [tcpValid_eq]; split <;> rfl
+theorem ip6Valid_safe (p : Bytes) : (ip6Valid p).safe = true := by rw [ip6Valid_eq]; split <;> rfl
+theorem llcValid_safe (p : Bytes) : (llcValid p).safe = true := by rw [llcValid_eq]; split <;> rfl
+
+theorem ip6Valid_ok (p : Bytes) (h : ip6Valid p = .ok ()) : 40 ≤ p.length ∧ Spec.u16 p 4 + 40 = p.length := by
+  rw [ip6Valid_eq] at h
+  split at h
+  · assumption
+  · cases h
+
+theorem mem_allViews (V : View) (hV : V ∈ allViews) :
+    V = vEther ∨ V = vIP4 ∨ V = vUDP ∨ V = vTCP ∨ V = vIP6 ∨ V = vARP ∨ V = vICMP ∨ V = vICMPEcho ∨
+    V = vICMP4Redirect ∨ V = vRS ∨ V = vRA ∨ V = vNA ∨ V = vNS ∨ V = vRedirect6 ∨ V = vDHCP4 ∨ V = vDNS ∨
+    V = vLLC ∨ V = vSNAP ∨ V = vRRCP ∨ V = vIEEE1905 ∨ V = vPause ∨ V = vLLDP ∨ V = vHopByHop := by
+  simpa only [allViews, List.mem_cons, List.not_mem_nil, or_false] using hV
+
+theorem view_valid_safe (V : View) (hV : V ∈ allViews) (p : Bytes) : (V.valid p).safe = true := by
+  rcases mem_allViews V hV with rfl | rfl | rfl | rfl | rfl | rfl | rfl | rfl | rfl | rfl | rfl | rfl | rfl |
+    rfl | rfl | rfl | rfl | rfl | rfl | rfl | rfl | rfl | rfl
+  · exact etherValid_safe p
+  · exact ip4Valid_safe p
+  · exact lenAtLeast_safe p 8 _
+  · exact tcpValid_safe p
+  · exact ip6Valid_safe p
+  · exact arpValid_safe p
+  · exact lenAtLeast_safe p 8 _
+  · exact lenAtLeast_safe p 8 _
+  · exact redirValid_safe p
+  · exact rsValid_safe p
+  · exact lenAtLeast_safe p 16 _
+  · exact lenAtLeast_safe p 24 _
+  · exact lenAtLeast_safe p 24 _
+  · exact lenAtLeast_safe p 40 _
+  · exact dhcpValid_safe p
+  · exact lenAtLeast_safe p 12 _
+  · exact llcValid_safe p
+  · exact lenAtLeast_safe p 9 _
+  · exact lenAtLeast_safe p 16 _
+  · exact lenAtLeast_safe p 8 _
+  · exact pauseValid_safe p
+  · exact lenAtLeast_safe p 6 _
+  · exact hbhValid_safe p
+
+theorem view_valid_minLen (V : View) (hV : V ∈ allViews) (p : Bytes) (h : V.valid p = .ok ()) :
+    V.minLen ≤ p.length := by
+  rcases mem_allViews V hV with rfl | rfl | rfl | rfl | rfl | rfl | rfl | rfl | rfl | rfl | rfl | rfl | rfl |
+    rfl | rfl | rfl | rfl | rfl | rfl | rfl | rfl | rfl | rfl
+  · exact (etherValid_ok p h).1
+  · exact (ip4Valid_ok p h).1
+  · exact lenAtLeast_len p 8 _ h
+  · exact (tcpValid_ok p h).1
+  · exact (ip6Valid_ok p h).1
+  · exact arpValid_len p h
+  · exact lenAtLeast_len p 8 _ h
+  · exact lenAtLeast_len p 8 _ h
+  · exact (redirValid_ok p h).1
+  · exact rsValid_len p h
+  · exact lenAtLeast_len p 16 _ h
+  · exact lenAtLeast_len p 24 _ h
+  · exact lenAtLeast_len p 24 _ h
+  · exact lenAtLeast_len p 40 _ h
+  · exact dhcpValid_len p h
+  · exact lenAtLeast_len p 12 _ h
+  · exact (llcValid_ok p h).1
+  · exact lenAtLeast_len p 9 _ h
+  · exact lenAtLeast_len p 16 _ h
+  · exact lenAtLeast_len p 8 _ h
+  · exact pauseValid_len p h
+  · exact lenAtLeast_len p 6 _ h
+  · exact (hbhValid_ok p h).1
+
+theorem view_fixed_safe (V : View) (hV : V ∈ allViews) (p : Bytes) (hv : V.valid p = .ok ()) :
+    ∀ e ∈ V.fixed, ∃ v, e.2.eval p = .ok v ∧ v.inside p.length := by
+  intro e he
+  have hlen := view_valid_minLen V hV p hv
+  have h0 := tablesOk_true
+  unfold tablesOk at h0
+  rw [List.all_eq_true] at h0
+  have h1 := h0 V hV
+  rw [List.all_eq_true] at h1
+  have h2 := h1 e he
+  simp only [Bool.and_eq_true, decide_eq_true_eq] at h2
+  exact G.eval_ok e.2 p h2.1 (by omega)
+
+theorem view_dyn_safe (V : View) (hV : V ∈ allViews) (p : Bytes) (hv : V.valid p = .ok ()) :
+    ∀ e ∈ V.dyn, GOk p (e.2 p) := by
+  intro e he
+  rcases mem_allViews V hV with rfl | rfl | rfl | rfl | rfl | rfl | rfl | rfl | rfl | rfl | rfl | rfl | rfl |
+    rfl | rfl | rfl | rfl | rfl | rfl | rfl | rfl | rfl | rfl
+  · simp only [vEther, List.mem_cons, List.not_mem_nil, or_false] at he
+    rcases he with rfl | rfl | rfl | rfl
+    · exact etherHeaderLen_getter p hv
+    · exact etherPayload_getter p hv
+    · exact etherIP_getter 12 8 (by omega) (by omega) p hv
+    · exact etherIP_getter 16 24 (by omega) (by omega) p hv
+  · simp only [vIP4, List.mem_cons, List.not_mem_nil, or_false] at he
+    subst he; exact ip4Payload_getter p hv
+  · cases he
+  · simp only [vTCP, List.mem_cons, List.not_mem_nil, or_false] at he
+    subst he; exact tcpPayload_getter p hv
+  · cases he
+  · cases he
+  · simp only [vICMP, List.mem_cons, List.not_mem_nil, or_false] at he
+    subst he; exact icmpPayload_getter p
+  · simp only [vICMPEcho, List.mem_cons, List.not_mem_nil, or_false] at he
+    subst he; exact echoData_getter p
+  · simp only [vICMP4Redirect, List.mem_cons, List.not_mem_nil, or_false] at he
+    subst he; exact redirAddrs_getter p hv
+  · simp only [vRS, List.mem_cons, List.not_mem_nil, or_false] at he
+    subst he; exact optLLA_getter 26 8 1 3 10 26 (by omega) (by omega) (by omega) p
+  · cases he
+  · simp only [vNA, List.mem_cons, List.not_mem_nil, or_false] at he
+    subst he; exact optLLA_getter 32 24 2 1 26 32 (by omega) (by omega) (by omega) p
+  · simp only [vNS, List.mem_cons, List.not_mem_nil, or_false] at he
+    subst he; exact optLLA_getter 32 24 1 1 26 32 (by omega) (by omega) (by omega) p
+  · simp only [vRedirect6, List.mem_cons, List.not_mem_nil, or_false] at he
+    subst he; exact optLLA_getter 48 40 2 1 42 48 (by omega) (by omega) (by omega) p
+  · have hl := dhcpValid_len p hv
+    simp only [vDHCP4, List.mem_cons, List.not_mem_nil, or_false] at he
+    rcases he with rfl | rfl | rfl
+    · exact trimNullSpan_getter 44 108 (by omega) p (by omega)
+    · exact trimNullSpan_getter 108 236 (by omega) p (by omega)
+    · exact dhcpOptions_getter p
+  · cases he
+  · simp only [vLLC, List.mem_cons, List.not_mem_nil, or_false] at he
+    rcases he with rfl | rfl
+    · exact llcType_getter p hv
+    · exact llcPayload_getter p hv
+  · cases he
+  · cases he
+  · cases he
+  · cases he
+  · simp only [vLLDP, List.mem_cons, List.not_mem_nil, or_false] at he
+    rcases he with rfl | rfl
+    · exact lldpValue_getter p 0
+    · exact lldpPortID_getter p
+  · simp only [vHopByHop, List.mem_cons, List.not_mem_nil, or_false] at he
+    subst he; exact hbhData_getter p hv
+
+
+theorem shl_or_byte (a b : Nat) (hb : b < 256) : a <<< 8 ||| b = a * 256 + b := by
+  rw [← Nat.shiftLeft_add_eq_or_of_lt (i := 8) hb, Nat.shiftLeft_eq]
+
+theorem NE_byte_eval (p : Bytes) (k : Nat) (h : k < p.length) : (NE.byte k).eval p = .ok (Spec.at_ p k) := by
+  show (do let v ← idx p k; pure v.toNat) = _
+  exact byteN_at p k h
+
+theorem be16_value (p : Bytes) (k : Nat) (h : k + 2 ≤ p.length) : (NE.be16 k).eval p = .ok (Spec.u16 p k) := by
+  unfold NE.be16
+  simp only [NE.eval]
+  have h0 := NE_byte_eval p k (by omega)
+  have h1 := NE_byte_eval p (k+1) (by omega)
+  simp only [NE.eval] at h0 h1
+  rw [h0, h1]
+  simp only [Outcome.bind_ok, Outcome.pure_eq]
+  rw [shl_or_byte _ _ (at_lt p (k+1))]; rfl
+
+
+theorem be32_bits (a b c d : Nat) (hb : b < 256) (hc : c < 256) (hd : d < 256) :
+    a <<< 24 ||| b <<< 16 ||| c <<< 8 ||| d = ((a * 256 + b) * 256 + c) * 256 + d := by
+  rw [← shl_or_byte a b hb, ← shl_or_byte _ c hc, ← shl_or_byte _ d hd]
+  simp only [Nat.shiftLeft_or_distrib, ← Nat.shiftLeft_add]
+
+theorem be32_value (p : Bytes) (k : Nat) (h : k + 4 ≤ p.length) :
+    (NE.be32 k).eval p = .ok (((Spec.at_ p k * 256 + Spec.at_ p (k+1)) * 256 + Spec.at_ p (k+2)) * 256 + Spec.at_ p (k+3)) := by
+  unfold NE.be32
+  have h0 := NE_byte_eval p k (by omega)
+  have h1 := NE_byte_eval p (k+1) (by omega)
+  have h2 := NE_byte_eval p (k+2) (by omega)
+  have h3 := NE_byte_eval p (k+3) (by omega)
+  simp only [NE.eval] at h0 h1 h2 h3 ⊢
+  rw [h0, h1, h2, h3]
+  simp only [Outcome.bind_ok, Outcome.pure_eq]
+  rw [be32_bits _ _ _ _ (at_lt p (k+1)) (at_lt p (k+2)) (at_lt p (k+3))]
+
+theorem and31 (n : Nat) : n &&& 31 = n % 32 := Nat.and_two_pow_sub_one_eq_mod n 5
+
+theorem ip4_fragment (p : Bytes) (h : ip4Valid p = .ok ()) :
+    (G.num (.or (.shl (.and (.byte 6) (.const 0x1f)) 8) (.byte 7))).eval p = .ok (.n (Spec.u16 p 6 % 8192)) := by
+  have hl := (ip4Valid_ok p h).1
+  have h0 := NE_byte_eval p 6 (by omega)
+  have h1 := NE_byte_eval p 7 (by omega)
+  simp only [G.eval, NE.eval] at h0 h1 ⊢
+  rw [h0, h1]
+  simp only [Outcome.bind_ok, Outcome.pure_eq]
+  rw [shl_or_byte _ _ (at_lt p 7), and31]
+  have := at_lt p 7
+  unfold Spec.u16
+  simp only [Nat.reduceAdd]
+  congr 2
+  omega
+
+
+theorem span_set_inside (p : Bytes) (o l i : Nat) (x : UInt8) :
+    ((p.set (o + i) x).drop o).take l = ((p.drop o).take l).set i x := by
+  rw [← List.set_drop, List.take_set]
+
+theorem span_set_outside (p : Bytes) (o l k : Nat) (x : UInt8) (hk : k < o ∨ o + l ≤ k) :
+    ((p.set k x).drop o).take l = (p.drop o).take l := by
+  rw [List.drop_set]
+  split
+  · rfl
+  · rw [List.take_set, List.set_eq_of_length_le]
+    rw [List.length_take]
+    omega
 end PV.Lemmas
